@@ -62,6 +62,10 @@ func c08(r *Report) propMeta {
 	r.ArgHas("sendall-def", pp, "keeper.GenerateNewPrices", 4, 1, "^binop:>=", "binops=+", "call:Context.BlockTime", "call:Time.Unix", "field:Tunnel.Interval", "field:LatestPrices.LastInterval", "binop:+")
 	due := Cond{Op: "LSS", A: []string{"call:Context.BlockTime"}, B: []string{"field:Tunnel.Interval", "field:LatestPrices.LastInterval", "binop:+", "binops=+"}, Want: false, Desc: "now >= interval + lastInterval (sendAll)"}
 	r.Gate("last-interval-only-on-sendall", pp, StoreEff("LatestPrices.LastInterval"), []Cond{due}, GateOpts{})
+	// whether a packet is due is decided by ProducePacket (sendAll / GenerateNewPrices) and by nothing in front of it:
+	// the end-block producer has exactly its reviewed decisions (tunnel lookup, fee lookup, funds, producer error).
+	// A pre-filter "is anything due?" is a second implementation of the trigger rule (seed C08-12 skipped delisted signals)
+	r.CondCount("no-second-trigger-rule-in-front", uK+"ProduceActiveTunnelPacket", 4)
 	r.FieldWriters("last-interval-writers", "LatestPrices.LastInterval", nil, []string{pp, uMS + "TriggerTunnel", "x/tunnel/types.NewLatestPrices"}, []string{"x/tunnel"})
 	r.ArgHas("prices-from-tunnel", pp, "keeper.GenerateNewPrices", 0, 1, "field:Tunnel.SignalDeviations", "call:Keeper.GetTunnel")
 	r.ArgHas("prices-vs-latest", pp, "keeper.GenerateNewPrices", 1, 1, "call:keeper.CreatePricesMap", "field:LatestPrices.Prices", "call:Keeper.GetLatestPrices")
